@@ -5,6 +5,7 @@ import JominiModel.Spec.WriterFlat
 import JominiModel.Proofs.WriterFlat
 import JominiModel.Proofs.WriterTape
 import JominiModel.Proofs.TextTapeFaithful3
+import JominiModel.Proofs.WriterArraysTape
 /-
 C14 — Writing a parsed tape and re-parsing reproduces the same structure; writing is idempotent.
 Only property theorems live here; helper lemmas are in `Proofs/Writer.lean`.
@@ -183,10 +184,48 @@ example : ∃ T₀ s T, TextTape.parse (TextTape.jrenderF
   · simp [CanonF, CanonV]
   · exact ⟨va, ⟨vb, vc, trivial⟩, trivial⟩
 
+/-- `C14_roundtrip` for root-level arrays of scalars and empty containers: a document of fields
+whose values are scalars, non-empty arrays of scalars or empty containers (`fs`, in the form a tape
+gives rise to), under ANY valid fragment-3 layout `jfs`; parse, write under any indent factor and
+blank indent byte, parse again: same tape modulo positions (keys, operators, scalars,
+`Array{end}` / `End` links).  `write_tape` writes an empty container as `{ }` and an array with
+its elements on one indented line. -/
+theorem C14_roundtrip_arrays (jfs : TextTape.JFields) (gt : Bytes) (fs : List AField) (c : UInt8) (f : Nat)
+    (hc : TextTape.isBlank c = true) (hgt : TextTape.Blank gt) (hv : TextTape.JValidF jfs gt)
+    (hb : TextTape.hasBom (TextTape.jrenderF jfs ++ gt) = false)
+    (hcontent : TextTape.kcontentF jfs = acontent fs) (hcanon : ∀ x ∈ fs, x.Canon)
+    (hvalid : ∀ x ∈ fs, x.key.Valid ∧ x.val.Valid)
+    (hb' : TextTape.hasBom (atext c f fs true) = false) :
+    ∃ T₀ s T, TextTape.parse (TextTape.jrenderF jfs ++ gt) = .ok T₀ false ∧
+      writeTape (T₀.map ofTT) (State.init c f) = .ok s ∧
+      TextTape.parse s.out = .ok T false ∧
+      T.map TextTape.Tok.erase = T₀.map TextTape.Tok.erase := by
+  obtain ⟨T₀, hp0, he0⟩ := TextTape.faithful_tree jfs gt hgt hv hb
+  have htape : T₀.map ofTT = wtAF 0 fs := by rw [← map_ofTT_erase, he0, hcontent, wtAF_eq]
+  have hw := writeTape_arrays fs hcanon c f
+  have hout := lexemes_arrays fs c f
+  have hvj : TextTape.JValidF (WriterParse.alayout c f fs true) [] := by
+    apply WriterParse.valid_alayout c f hc fs true
+    intro x hx
+    obtain ⟨hk, hval⟩ := hvalid x hx
+    refine ⟨scall_valid _ hk, ?_, ?_⟩
+    · intro s hs; rw [hs] at hval; exact scall_valid _ hval
+    · intro u a rest hs
+      rw [hs] at hval
+      exact ⟨scall_valid _ hval.1, fun e he => scall_valid _ (hval.2 e he)⟩
+  have hr := WriterParse.jrenderF_alayout c f fs true
+  obtain ⟨T, hp, he⟩ := TextTape.faithful_tree (WriterParse.alayout c f fs true) [] .nil hvj
+    (by rw [List.append_nil, hr]; exact hb')
+  simp only [List.append_nil] at hp
+  rw [hr] at hp
+  rw [WriterParse.kcontentF_alayout] at he
+  exact ⟨T₀, _, T, hp0, by rw [htape]; exact hw, by rw [hout]; exact hp, by rw [he, he0, hcontent]⟩
+
 /-
 Growth theorem, NOT proved beyond flat documents and nested objects (full statement kept;
-`C14_roundtrip_flat` and `C14_roundtrip_nested` are its instances; arrays, empty containers, headers,
-parameter blocks and mixed containers are decided by the L3 oracle on the real code):
+`C14_roundtrip_flat`, `C14_roundtrip_nested` and `C14_roundtrip_arrays` are its instances; arrays
+inside containers and arrays of containers, headers, parameter blocks and mixed containers are decided
+by the L3 oracle on the real code):
 
   theorem C14_roundtrip (doc : Doc) (h : RoundTrippable doc) (layout : Layout) (c : UInt8) (f : Nat)
       (hc : c = 32 ∨ c = 9) (hf : f ≤ 9) :
